@@ -176,14 +176,14 @@ inductive PdFilter where
   | none
   | list (xs : List Bool)        -- Python list of bool
   | array (xs : List Bool)       -- numpy bool array
-  | field                        -- an ExeTera field: numpy refuses it as an index
+  | field (xs : List Bool)       -- an ExeTera field: numpy refuses it as an index
   deriving Repr, DecidableEq
 
 /-- `field_arr[row_filter]` -/
 def pdApply (data : List Cell) : PdFilter → Except Err (List Cell)
   | .none => .ok data
-  | .field => .error (.oob "only integers, slices, ... are valid indices")
-  | .list [] => .ok []                                   -- an empty list is an (empty) integer index
+  | .field _ => .error (.oob "only integers, slices, ... are valid indices")
+  | .list [] | .array [] => .ok []                       -- an empty index selects nothing, whatever the length
   | .list xs | .array xs =>
     if xs.length ≠ data.length then .error (.oob "boolean index did not match indexed array")
     else .ok ((data.zip xs).filterMap (fun p => if p.2 then some p.1 else Option.none))
